@@ -65,6 +65,7 @@ fn kx_arc_slice_inclusive_unbounded() {
     let hi: usize = kani::any();
     let p = g.buf as usize + g.off;
     let which: u8 = kani::any();
+    use core::ops::Bound;
     if which == 0 {
         kani::assume(lo <= hi && hi < g.len);
         let s = b.slice(lo..=hi);
@@ -75,10 +76,21 @@ fn kx_arc_slice_inclusive_unbounded() {
         let s = b.slice(..hi);
         assert!(s.len == hi && (hi == 0 || (s.ptr as usize == p && refcnt(&g) == g.k + 1)));
         core::mem::forget(s);
-    } else {
+    } else if which == 2 {
         kani::assume(lo <= g.len);
         let s = b.slice(lo..);
         assert!(s.len == g.len - lo && (lo == g.len || (s.ptr as usize == p + lo && refcnt(&g) == g.k + 1)));
+        core::mem::forget(s);
+    } else if which == 3 {
+        // excluded start (only reachable through an explicit (Bound, Bound) pair): starts at lo + 1
+        kani::assume(lo < hi && hi < g.len);
+        let s = b.slice((Bound::Excluded(lo), Bound::Included(hi)));
+        assert!(s.len == hi - lo && s.ptr as usize == p + lo + 1 && refcnt(&g) == g.k + 1);
+        core::mem::forget(s);
+    } else {
+        kani::assume(lo < g.len);
+        let s = b.slice((Bound::Excluded(lo), Bound::Unbounded));
+        assert!(s.len == g.len - lo - 1 && (s.len == 0 || (s.ptr as usize == p + lo + 1 && refcnt(&g) == g.k + 1)));
         core::mem::forget(s);
     }
     core::mem::forget(b);
